@@ -429,6 +429,16 @@ def oracle(line, out, mode):
 
 
 def same(line, io, mo):
+    """textual inputs the property does not decide (classes `other-*`: a '+' sign or leading zeros in ipn numbers, dtn://node without the
+    trailing slash) may be accepted or rejected; when accepted, the oracle still demands the round trips"""
+    toks = line.split(" ")
+    if toks[0] in ("D", "R"):
+        toks = toks[1:]
+    if toks[0] == "EID" and len(toks) == 2:
+        try:
+            return classify_text(bytes.fromhex(toks[1][1:]))[0].startswith("other-")
+        except ValueError:
+            return False
     return False
 
 
